@@ -417,7 +417,7 @@ def obligations(tier: str, known: List[str]) -> List[Ob]:
     obs.append(Ob("b.backoff-kernel", C_BO, "backoff_kernel", {}, kind="e2"))
     for kc in ((0, 1, 2, 3, 6, 7, 8, 9, 100, 2878, 2879, 2880, 2881, 3000) if thorough else (0, 1, 6, 7, 2879, 2880)):
         obs.append(Ob("b.retry-sequence[k=%d]" % kc, C_BO, "retry_sequence", {"kcase": kc}, timeout=T))
-    obs.append(twin_of(obs[-1], timeout=300))
+    obs.append(twin_of([o for o in obs if o.name == "b.retry-sequence[k=1]"][0], timeout=300))
     obs.append(Ob("c.self-connection", C_SELF, "self_connection", {}, timeout=T))
     for n in ((0, 1, 2, 4, 5, 6) if thorough else (0, 1, 5, 6)):
         obs.append(Ob("d.peer-file.crash[rows=%d,limit=5]" % n, C_FILE, "peer_file", {"nrows": n, "maxlen": 5}, timeout=T))
